@@ -30,8 +30,9 @@ ASSUMPTIONS = [
     'operations are atomic scheduler steps: no pre-emption inside an '
     'operation (the library has no threads and no property speaks about '
     'concurrent callers)',
-    'an estimate evaluated after a later merge into its library may denote '
-    'either library state (the property does not say); both are accepted',
+    'an estimate evaluated after a later merge into its library is compared '
+    'with the same sequence (estimate, merge, evaluate) done first in a '
+    'fresh process',
 ]
 
 SHIPPED = ['BensonGA', 'GRWAqueous2018', 'GRWSurface2018',
@@ -159,6 +160,18 @@ def _ref_chain(lib, chain):
         if est is None:
             return {'precondition-failed': out}
         return libops.op_evaluate(est, chain[2])
+    if kind == 'evaluate2':
+        # an estimate made first, then later merges into its library, then
+        # the evaluation -- all of it first in a fresh process
+        out, d = libops.op_decompose(lib, chain[1])
+        if d is None:
+            return {'precondition-failed': out}
+        out, est = libops.op_estimate(lib, d)
+        if est is None:
+            return {'precondition-failed': out}
+        for other, overwrite in chain[3]:
+            libops.record(lib.Update, libops.build_lineage(other), overwrite)
+        return libops.op_evaluate(est, chain[2])
     if kind == 'group_eval':
         corr = lib[chain[1]].get('thermochem')
         if corr is None:
@@ -198,11 +211,12 @@ def _proc_digest():
 
 def worker_init(prop='C15', tier='quick'):
     # Nothing of pgradd has run in this process yet: fork the pristine
-    # reference server first.
+    # reference server first.  The worker itself stays pristine for good:
+    # every history runs in its own forked child (a fresh process), which
+    # talks to the reference server over the inherited connection and hands
+    # new reference values back for the worker's memo.
     _st['ref'] = RefClient(_ref_setup_any, _ref_chain_any)
     _st['memo'] = {}
-    libops.quiet()
-    install_seam()
 
 
 def reference(lineage, chain):
@@ -216,6 +230,7 @@ def reference(lineage, chain):
             raise RuntimeError('reference computation failed (%s): %s'
                                % (status, val))
         memo[key] = val
+        _st.setdefault('memo_new', {})[key] = val
     _st.setdefault('refs_used', {})[key] = core.digest(memo[key])[:16]
     if core.H('refsample', key) % 40 == 0:
         _st.setdefault('ref_samples', {})[key] = [lineage, chain,
@@ -327,6 +342,24 @@ class History(object):
         return self
 
     # -- operations
+    def do_setenv(self, op, idx):
+        """The caller changes the data-directory override between
+        operations (its environment is part of the history)."""
+        v = op['value']
+        if v is None:
+            os.environ.pop('pgradd_DATA_DIR', None)
+        elif v == '<bundled>':
+            os.environ['pgradd_DATA_DIR'] = os.path.join(core.pgradd_dir(),
+                                                         'data')
+        else:
+            os.environ['pgradd_DATA_DIR'] = v
+        self.env_valid = v is None or v == '<bundled>'
+        self.probe('override_changed')
+        return ['setenv', v]
+
+    env_valid = True
+    resolved = False
+
     def do_load(self, op, idx):
         sid = op['slot']
         lineage = {'base': [op['lib'], op.get('how', 'name')], 'merges': []}
@@ -354,6 +387,19 @@ class History(object):
                           {'lib': op['lib'], 'outcome': out}, idx)
             self.after_failure = idx
             return ['load-failed', op['lib'], out.get('exc')]
+        by_name = op.get('how', 'name') == 'name' and \
+            not op['lib'].startswith('Fix')
+        if by_name and not self.env_valid and not self.resolved:
+            # the override names no directory and nothing was resolved yet
+            # in this process: the load cannot succeed
+            self.probe('load_by_name_under_invalid_override')
+            if lib is None:
+                self.after_failure = idx
+                return ['load-failed-override', op['lib'], out.get('exc')]
+        if by_name and not self.env_valid and self.resolved and lib is None:
+            # an implementation may or may not re-read the override
+            self.after_failure = idx
+            return ['load-failed-override', op['lib'], out.get('exc')]
         if lib is None:
             self.viol('fresh-equivalence', 'load-failed',
                       'load|obs=%s|ref=ok' % out.get('exc'),
@@ -364,6 +410,8 @@ class History(object):
         if any(s['lineage']['base'][0] == op['lib']
                for s in self.slots.values()):
             self.probe('load_library_already_loaded')
+        if by_name:
+            self.resolved = True
         self.slots[sid] = {'lib': lib, 'lineage': lineage, 'last_mol': None,
                            'ndecomp': 0}
         return ['load', op['lib'], op.get('how', 'name'), out.get('warn')]
@@ -409,7 +457,8 @@ class History(object):
                       'slot_last_decomposed': s['last_mol']})
         if est is not None:
             self.ests[op['out']] = {'e': est, 'lineage': lin, 'mol': d['mol'],
-                                    'slot': op['slot'], 'made_at': idx}
+                                    'slot': op['slot'], 'made_at': idx,
+                                    'libobj': s['lib']}
         else:
             self.after_failure = idx
         return ['estimate', d['mol'], core.digest(out)[:12]]
@@ -426,16 +475,17 @@ class History(object):
             self.probe('evaluation_with_S_elements')
             if idx - e['made_at'] > 3:
                 self.probe('S_elements_long_after_creation')
-        ref = reference(e['lineage'], ['evaluate', e['mol'], v])
         s = self.slots.get(e['slot'])
-        if not libops.same_outcome(out, ref) and s is not None and \
-                libops.lineage_key(s['lineage']) != \
-                libops.lineage_key(e['lineage']):
-            ref2 = reference(_lin_copy(s['lineage']),
-                             ['evaluate', e['mol'], v])
-            if libops.same_outcome(out, ref2):
-                self.probe('estimate_sees_later_merge')
-                ref = ref2
+        later = []
+        if s is not None and s['lib'] is e['libobj']:
+            later = s['lineage']['merges'][len(e['lineage']['merges']):]
+        if later:
+            # merges went into the estimate's library after it was made:
+            # the reference does exactly the same, first, in a fresh process
+            self.probe('estimate_evaluated_after_later_merge')
+            ref = reference(e['lineage'], ['evaluate2', e['mol'], v, later])
+        else:
+            ref = reference(e['lineage'], ['evaluate', e['mol'], v])
         tag = '[S_el]' if v.get('S_el') else ''
         self.compare('evaluate', out, ref, idx,
                      {'lineage': e['lineage'], 'mol': e['mol'], 'variant': v},
@@ -526,11 +576,30 @@ def _trim(out):
     return out
 
 
-def execute_spec(spec):
+def _history_child(state, spec):
+    """Runs in a forked child of the pristine worker: one fresh process
+    per history."""
+    libops.quiet()
+    install_seam()
     _st['refs_used'] = {}
     _st['ref_samples'] = {}
+    _st['memo_new'] = {}
     h = History(spec).run()
-    return h.viols, h.log.digest(), h
+    return {'viols': h.viols, 'digest': h.log.digest(), 'stats': h.stats,
+            'probes': h.probes,
+            'global_digests': sorted(d[:12] for d in h.global_digests),
+            'refs': dict(_st['refs_used']),
+            'ref_samples': dict(_st['ref_samples']),
+            'memo_new': dict(_st['memo_new'])}
+
+
+def execute_spec(spec):
+    from sim.zygote import _run_chain_forked
+    status, val = _run_chain_forked(_history_child, None, spec, 900)
+    if status != 'ok':
+        raise RuntimeError('history child failed (%s): %s' % (status, val))
+    _st['memo'].update(val.pop('memo_new'))
+    return val['viols'], val['digest'], val
 
 
 # ------------------------------------------------------------- generation
@@ -576,6 +645,10 @@ def gen_spec(run_seed, tier='quick'):
          'evaluate': rng.uniform(1, 5), 'group_eval': rng.uniform(0, 1.5),
          'merge': rng.uniform(0, 1.2), 'load': rng.uniform(0.2, 1.0),
          'format': rng.uniform(0, 0.6), 'read_pattern': rng.uniform(0, 0.5)}
+    env_ops = rng.random() < 0.3
+    if env_ops and rng.random() < 0.4:
+        # the override is wrong from the start and corrected later
+        pass
     # static model of what exists
     slots = {}                 # sid -> lib name
     descs = []                 # (name, lib)
@@ -583,6 +656,14 @@ def gen_spec(run_seed, tier='quick'):
     clients = [{'slot': None} for _ in range(nclients)]
     ops = []
     nd = ne = 0
+    if env_ops and rng.random() < 0.4:
+        ops.append({'op': 'setenv', 'client': 0,
+                    'value': '/nonexistent/pgradd-data'})
+        ops.append({'op': 'load', 'client': 0, 'slot': 0,
+                    'lib': rng.choice([l for l in libs] + ['XieGA2022']),
+                    'how': 'name'})
+        ops.append({'op': 'setenv', 'client': 0,
+                    'value': rng.choice([None, '<bundled>'])})
 
     def gen_load(c, cid):
         nonlocal slots
@@ -614,6 +695,11 @@ def gen_spec(run_seed, tier='quick'):
                 c['slot'] = rng.choice(sorted(slots))   # share a slot
                 continue
             gen_load(c, cid)
+            continue
+        if env_ops and rng.random() < 0.06:
+            ops.append({'op': 'setenv', 'client': cid,
+                        'value': rng.choice([None, '<bundled>',
+                                             '/nonexistent/pgradd-data'])})
             continue
         kinds = ['decompose', 'load', 'group_eval', 'format', 'read_pattern']
         lib = slots[c['slot']]
@@ -711,13 +797,15 @@ def run_task(task):
                 kept.append(v)
         results.append({
             'id': 'h%d' % seed, 'digest': dig, 'violations': kept,
-            'violation_counts': by, 'stats': h.stats, 'probes': h.probes,
+            'violation_counts': by, 'stats': h['stats'],
+            'probes': h['probes'],
             'grams': sorted(_grams(spec, h)),
             'opsdigest': core.digest(spec['ops'])[:16],
-            'global_digests': sorted(d[:12] for d in h.global_digests),
-            'refs': dict(_st.get('refs_used') or {}),
-            'ref_samples': dict(_st.get('ref_samples') or {}),
-            'nontrivial': h.stats['compared'] >= 1 and h.stats['ops'] >= 2,
+            'global_digests': h['global_digests'],
+            'refs': h['refs'],
+            'ref_samples': h['ref_samples'],
+            'nontrivial': h['stats']['compared'] >= 1 and
+            h['stats']['ops'] >= 2,
             'faulted': bool(spec['config']['fault_kinds']),
             'sample': {'config': spec['config'], 'ops': spec['ops'][:12],
                        'n_ops': len(spec['ops'])},
